@@ -185,6 +185,57 @@ def _check_read_order(rep, r, m, ci) -> None:
                     )
     if n == 0:
         rep.ok(r, f"{ci.name}: no constructor definition reads another field", "")
+    for c in m.prog.mro(ci):
+        if "__init__" in c.methods and c.module.startswith("rp2."):
+            _check_params_unchanged(rep, r, m, c)
+
+
+# parameter rebindings confirmed by reading: (class, parameter, assigned value) -> why the stored value is still the supplied one
+REVIEWED_REBINDINGS = {
+    ("IntraTransaction", "spot_price", "ZERO"): "only when spot_price is None or already == ZERO and the fee is zero (guard decided by C12.b): a supplied non-zero price is never replaced",
+}
+
+
+def _check_params_unchanged(rep, r, m, ci) -> None:
+    """The case analysis treats each parameter as the supplied cell (or None when the column is absent). That is the value a field definition reads only
+    when the constructor does not rebind the parameter first: a rebinding reachable with a supplied value replaces the exchange's figure."""
+    from ..loader import ancestors
+
+    init = ci.methods["__init__"]
+    params = {a.arg for a in init.node.args.args + init.node.args.kwonlyargs} - {"self"}
+    found = 0
+    for n in ast.walk(init.node):
+        if not (isinstance(n, ast.Name) and isinstance(n.ctx, (ast.Store, ast.Del)) and n.id in params):
+            continue
+        found += 1
+        stmt = next((a for a in [n] + list(ancestors(n)) if isinstance(a, ast.stmt)), None)
+        value = unparse(getattr(stmt, "value", None)) if stmt is not None else "?"
+        if (ci.name, n.id, value) in REVIEWED_REBINDINGS:
+            rep.ok(r, f"{ci.name}.__init__: {n.id} = {value} (reviewed)", REVIEWED_REBINDINGS[(ci.name, n.id, value)])
+            continue
+        # a rebinding that can only happen when the parameter is None is a default fill the case analysis cannot see: unknown idiom, not a located violation
+        only_absent = False
+        cur = stmt
+        for a in ancestors(stmt):
+            if isinstance(a, ast.If) and cur in a.body and unparse(a.test) in (f"{n.id} is None", f"not {n.id}"):
+                only_absent = True
+            cur = a
+            if a is init.node:
+                break
+        if only_absent:
+            rep.defer_error(f"{loc(stmt)}: {ci.name}.__init__ fills parameter '{n.id}' in place when it is absent ({short(stmt, 80)}): the case analysis of the defaults reads parameters as supplied and does not know this idiom")
+            continue
+        rep.violation(
+            r,
+            ci.module,
+            init.qualname,
+            f"parameter {n.id} rebound before it is stored",
+            f"{short(stmt, 110)} replaces the constructor parameter '{n.id}' on a path that a supplied value can take: the field stored afterwards is no longer the exchange-supplied "
+            f"{n.id} for every input (the value is dropped or altered for some of them), so the transaction RP2 computes on is not the spreadsheet row",
+            loc(stmt),
+        )
+    if not found:
+        rep.ok(r, f"{ci.name}.__init__: no parameter is rebound before it is stored", "")
 
 
 def _check_in(rep, r, m, ci):
